@@ -2,6 +2,8 @@ package props
 
 import (
 	"fmt"
+	"os"
+	"regexp"
 	"sort"
 	"strings"
 	"time"
@@ -19,32 +21,32 @@ type svcSpec struct {
 }
 
 var svcSpecs = map[string]svcSpec{
-	"adb":            {"adb", "tcp", 5555, ""},
-	"counterstrike":  {"counterstrike", "udp", 27015, ""},
-	"cwmp":           {"cwmp", "tcp", 7547, ""},
-	"dns":            {"dns", "udp", 53, ""},
-	"docker":         {"docker", "tcp", 2375, ""},
-	"echo":           {"echo", "udp", 7, ""},
-	"echo-tcp":       {"echo", "tcp", 7, ""},
-	"elasticsearch":  {"elasticsearch", "tcp", 9200, ""},
-	"eos":            {"eos", "tcp", 8888, ""},
-	"ethereum":       {"ethereum", "tcp", 8545, ""},
-	"ftp":            {"ftp", "tcp", 21, ""},
-	"http":           {"http", "tcp", 80, ""},
-	"https":          {"https", "tcp", 443, ""},
-	"ipp":            {"ipp", "tcp", 631, ""},
-	"ldap":           {"ldap", "tcp", 389, ""},
-	"memcached":      {"memcached", "tcp", 11211, ""},
-	"memcached-udp":  {"memcached", "udp", 11211, ""},
-	"ntp":            {"ntp", "udp", 123, ""},
-	"redis":          {"redis", "tcp", 6379, ""},
-	"smtp":           {"smtp", "tcp", 25, ""},
-	"snmp":           {"snmp", "udp", 161, ""},
-	"ssh-auth":       {"ssh-auth", "tcp", 22, ""},
-	"ssh-simulator":  {"ssh-simulator", "tcp", 2222, ""},
-	"telnet":         {"telnet", "tcp", 23, ""},
-	"tftp":           {"tftp", "udp", 69, ""},
-	"vnc":            {"vnc", "tcp", 5900, ""},
+	"adb":           {"adb", "tcp", 5555, ""},
+	"counterstrike": {"counterstrike", "udp", 27015, ""},
+	"cwmp":          {"cwmp", "tcp", 7547, ""},
+	"dns":           {"dns", "udp", 53, ""},
+	"docker":        {"docker", "tcp", 2375, ""},
+	"echo":          {"echo", "udp", 7, ""},
+	"echo-tcp":      {"echo", "tcp", 7, ""},
+	"elasticsearch": {"elasticsearch", "tcp", 9200, ""},
+	"eos":           {"eos", "tcp", 8888, ""},
+	"ethereum":      {"ethereum", "tcp", 8545, ""},
+	"ftp":           {"ftp", "tcp", 21, ""},
+	"http":          {"http", "tcp", 80, ""},
+	"https":         {"https", "tcp", 443, ""},
+	"ipp":           {"ipp", "tcp", 631, ""},
+	"ldap":          {"ldap", "tcp", 389, ""},
+	"memcached":     {"memcached", "tcp", 11211, ""},
+	"memcached-udp": {"memcached", "udp", 11211, ""},
+	"ntp":           {"ntp", "udp", 123, ""},
+	"redis":         {"redis", "tcp", 6379, ""},
+	"smtp":          {"smtp", "tcp", 25, ""},
+	"snmp":          {"snmp", "udp", 161, ""},
+	"ssh-auth":      {"ssh-auth", "tcp", 22, ""},
+	"ssh-simulator": {"ssh-simulator", "tcp", 2222, ""},
+	"telnet":        {"telnet", "tcp", 23, ""},
+	"tftp":          {"tftp", "udp", 69, ""},
+	"vnc":           {"vnc", "tcp", 5900, ""},
 }
 
 const serverIP = "10.0.0.1"
@@ -69,6 +71,8 @@ func svcToml(names ...string) string {
 
 // startSvc starts a fresh lab server with the named services.
 func startSvc(names ...string) *lab.Server {
+	// only one lab server is alive per worker: drop the FTP roots of dead ones
+	os.RemoveAll(lab.ScratchDir() + "/ftpbase/ftp")
 	lab.ResetEvents()
 	lab.ResetStubs()
 	s, err := lab.Start(svcToml(names...))
@@ -158,4 +162,100 @@ func settleConn(c *memconn.Conn) {
 	if !c.Closed() {
 		lab.Advance(31 * time.Second)
 	}
+}
+
+var ftpRootRe = regexp.MustCompile(`/[^ "]*/ftpbase/ftp/[0-9a-f]{15}`)
+
+// canonTranscript masks what legitimately differs between two runs of the
+// same script: the random FTP root directory name and the (map-ordered)
+// attribute order inside one LDAP message.
+func canonTranscript(svc string, raw []byte) string {
+	switch svc {
+	case "ftp":
+		return ftpRootRe.ReplaceAllString(string(raw), "<root>")
+	case "ldap":
+		var out []string
+		rest := raw
+		for len(rest) > 0 {
+			n, ok := berSize(rest)
+			if !ok || n > len(rest) {
+				out = append(out, fmt.Sprintf("trailing<%x>", rest))
+				break
+			}
+			out = append(out, fmt.Sprintf("%x", berSorted(rest[:n])))
+			rest = rest[n:]
+		}
+		return strings.Join(out, " ")
+	}
+	return string(raw)
+}
+
+// berSize returns the total length of the TLV at the start of b.
+func berSize(b []byte) (int, bool) {
+	if len(b) < 2 {
+		return 0, false
+	}
+	l := int(b[1])
+	hdr := 2
+	if l&0x80 != 0 {
+		nb := l & 0x7f
+		if nb == 0 || nb > 3 || len(b) < 2+nb {
+			return 0, false
+		}
+		l = 0
+		for i := 0; i < nb; i++ {
+			l = l<<8 | int(b[2+i])
+		}
+		hdr = 2 + nb
+	}
+	return hdr + l, true
+}
+
+// berSorted re-serialises a TLV with the children of every constructed node
+// sorted, so that map iteration order inside a message does not matter.
+func berSorted(b []byte) []byte {
+	n, ok := berSize(b)
+	if !ok || n > len(b) {
+		return b
+	}
+	if b[0]&0x20 == 0 {
+		return b[:n]
+	}
+	hdr := 2
+	if b[1]&0x80 != 0 {
+		hdr = 2 + int(b[1]&0x7f)
+	}
+	var kids []string
+	rest := b[hdr:n]
+	for len(rest) > 0 {
+		k, ok := berSize(rest)
+		if !ok || k > len(rest) {
+			kids = append(kids, string(rest))
+			break
+		}
+		kids = append(kids, string(berSorted(rest[:k])))
+		rest = rest[k:]
+	}
+	// keep the first two children of an LDAPMessage-like sequence in place (id, op); sort deeper levels only
+	if b[0] == 0x30 && len(kids) == 2 && len(kids[0]) >= 1 && kids[0][0] == 0x02 {
+		return append(append([]byte{}, b[:hdr]...), []byte(strings.Join(kids, ""))...)
+	}
+	sort.Strings(kids)
+	return append(append([]byte{}, b[:hdr]...), []byte(strings.Join(kids, ""))...)
+}
+
+// ftpRoot returns the root directory the most recently constructed FTP service uses.
+func ftpRoot() string {
+	base := lab.ScratchDir() + "/ftpbase/ftp"
+	ents, _ := os.ReadDir(base)
+	best, bestT := "", time.Time{}
+	for _, e := range ents {
+		if i, err := e.Info(); err == nil && (best == "" || i.ModTime().After(bestT)) {
+			best, bestT = e.Name(), i.ModTime()
+		}
+	}
+	if best == "" {
+		return ""
+	}
+	return base + "/" + best
 }
